@@ -8,7 +8,10 @@ CONFIG = dict(
                "listener scripts: subscribe/unsubscribe self, other, new, nested and global publish, clear; any call sequence; "
                "any Go map iteration order): a dispatch loop invokes only listeners subscribed right now to exactly that centre "
                "and name, never twice per publication, with bound args followed by the published ones, and misses none that "
-               "stays subscribed; no invocation after unsubscribe or clear (ids are never re-used); global registration = "
+               "stays subscribed; 'subscribed right now' is a function of the trace: a listener whose subscribe succeeded stays in the list of exactly that "
+               "centre and name until an unsubscribe hits it or its centre is cleared - no end of a dispatch loop, nested publication (to nobody), "
+               "drain or (de)registration drops one - and the light centre's GetSubscribeNum / HasSubscribers count exactly those, each once; "
+               "no invocation after unsubscribe or clear (ids are never re-used); global registration = "
                "Global flag (for every (name, centre) pair nobody (un)registered by hand through the exported GetGlobalEC().Subscribe/Unsubscribe), kept by every live global subscription and dropped with the last listener / clear; a global "
                "publication appends exactly one event per subscribed centre unless its queue holds 999; no lock is held across "
                "a listener call. The model is tied to the Go code on every run by replaying ~3000 generated cases (~80k op lines) "
@@ -19,13 +22,17 @@ CONFIG = dict(
                "goroutine and concurrent publishers at the queue limit are proved in the small second model (Model/EventsOwner.lean) and tied by the "
                "ops rs (real StandardRunService, Stop with a busy owner and queued events) and concfull (real goroutines whose looks at the queue are "
                "forced into lockstep by a wrapper centre); concurrent publishers below the limit, concurrent first subscribers (D17) and the "
-               "subscribe/unsubscribe-last race are exercised by ops with real goroutines, not proved. The main model stays sequential (one call stack).",
+               "subscribe/unsubscribe-last race are exercised by ops with real goroutines, not proved. The main model stays sequential (one call stack). "
+               "The model keeps ONE relation of live subscriptions; the Go code keeps a map name -> *ListenerList, and that a list object, once stored, is never "
+               "replaced or dropped except by Clear is not a model fact: it is tied by the run (leave-and-return family: a listener subscribed while the name's "
+               "list is empty and a delivery of that name is still on the stack must be counted and called afterwards).",
     lean_targets=["Cell2v.Props.C17", "modeld_c17"],
     driver="modeld_c17",
     driver_root="Cell2v.Driver.C17",
     audit="Audit/C17.lean",
     required_theorems=["publish_calls_current_once", "publish_at_most_once", "publish_reaches_every_current_listener", "queued_events_were_published", "args_bound_then_published", "other_names_untouched",
-                       "never_after_unsubscribe", "never_after_clear", "global_once_per_subscribed_centre",
+                       "never_after_unsubscribe", "never_after_clear", "subscribed_until_removed", "subscriber_count_is_live_subscriptions",
+                       "global_once_per_subscribed_centre",
                        "global_once_per_registered_centre", "direct_registration_is_a_set", "racing_subscribe_is_script_then_subscribe", "receiver_matching_rule",
                        "global_registration_tracks_listeners", "reentrant_ops_do_not_block",
                        "nested_publications_leave_args_intact", "d25_append_in_place_overwrites", "global_delivery_follows_global_flag", "plain_listeners_keep_global_delivery",
@@ -47,7 +54,11 @@ CONFIG = dict(
          "nested publish up to depth 3, global publish, clear, direct Subscribe/Unsubscribe(name, centre) on the exported global centre), then 4-13 top-level call lines, owner drains, queue probes and a final "
          "publish of every name on every centre; families quiet / re-entrant / global / clear-heavy / racing-subscribe (a direct Subscribe through a wrapper centre whose GetId() runs a racing script between the global centre's list lookup and store: unsubscribe-last, clear, further subscriptions) / nested-args (listeners with bound args re-publish the event they handle, nesting 1-3, and re-read their arguments afterwards) / receiver-mix (light centre: Subscribe, SubscribeWithReceiver, UnsubscribeWithReceiver and Unsubscribe(cb) mixed for ONE callback value and name, same and different receivers) / shared-pointer (light centre: 2-4 listeners of one name sharing a callback pointer - SubscribeNoCheck duplicates or one callback under several receivers - leave in any order, newest first as often as not, by id or by receiver, checked Subscribe of the callback in between must be refused, the last one goes through Unsubscribe(name, cb), then the callback is subscribed again) / swap-inside-listener (listeners that unsubscribe other listeners of the event being delivered AND subscribe new ones to it, same size or one more / less, either order, local / channel-mode / light centres) / direct-global (stray and duplicate direct (un)registrations before and after real GSubscribe calls, then global publications); 999-slot queue cases (global "
          "publication dropped, blocking local publish hangs under the watchdog); malformed stream (unknown centres, templates, tags, "
-         "unparsable scripts); real StandardRunService (half of the cases: Stop from outside while the owner is stuck in a listener and 1-5 global/local publications are still queued; reports goroutine of every invocation and deliveries after Stop), concurrent publishers at the queue limit (2-5 goroutines, 0-3 free slots, a wrapper centre makes them look at the queue in lockstep; reports queue length, publishers that never returned, second centre), concurrent-publisher, concurrent-first-subscriber and subscribe/unsubscribe-last/publish stress cases (real goroutines); two templates in three hand their bound arguments over in a slice with 1-4 spare slots (def ... x=), every listener re-reads its arguments after its script (nested publications included) ran; corpus = D7, D14, D17 and D25 witnesses, shared-pointer / swap / stop-with-queued-events / queue-limit scenarios. A line "
+         "unparsable scripts); real StandardRunService (half of the cases: Stop from outside while the owner is stuck in a listener and 1-5 global/local publications are still queued; reports goroutine of every invocation and deliveries after Stop), concurrent publishers at the queue limit (2-5 goroutines, 0-3 free slots, a wrapper centre makes them look at the queue in lockstep; reports queue length, publishers that never returned, second centre), concurrent-publisher, concurrent-first-subscriber and subscribe/unsubscribe-last/publish stress cases (real goroutines); leave-and-return-inside-listener (one-shot listeners, 1-3 of one name on a local / channel-mode / light centre: while the name is being "
+         "delivered they unsubscribe themselves or one another until nobody may be left, publish the name again from inside the listener - a nested delivery to "
+         "whoever is left, possibly nobody - and subscribe fresh listeners to it before they return, some of which leave again at once; any order; then subscriber-count "
+         "probes and two more publications); subscriber-count probes `n c= e=` (light centre: GetSubscribeNum and HasSubscribers as the centre reports them; the monitor "
+         "compares with its own table of subscribed-and-not-removed listeners) after every leave-and-return step and at the end of half of the generic cases; two templates in three hand their bound arguments over in a slice with 1-4 spare slots (def ... x=), every listener re-reads its arguments after its script (nested publications included) ran; corpus = D7, D14, D17 and D25 witnesses, shared-pointer / swap / stop-with-queued-events / queue-limit / leave-and-return scenarios. A line "
          "is non-trivial when its observation contains at least one listener invocation or a non-empty global fan-out",
     trusted_base=[
         "Lean 4.33.0 kernel; axioms of every property theorem audited on each run (allowed: propext, Classical.choice, Quot.sound)",
@@ -55,7 +66,8 @@ CONFIG = dict(
         "must equal what the real StandardRunService / GlobalEventCenter report (scenario-level tie: the harness plays rsActs / fullActs)",
         "hand-written model lean/Cell2v/Model/Events.lean tied to the Go code by the acceptance run of this check (harness/c17 + modeld_c17 accept): "
         "the implementation's iteration order is the model's guide, everything else must match exactly",
-        "property monitor in lean/Cell2v/Driver/C17.lean (spec mode): follows the implementation's invocations, keeps its own subscription table",
+        "property monitor in lean/Cell2v/Driver/C17.lean (spec mode): follows the implementation's invocations, keeps its own subscription table "
+        "(subscribed successfully and not removed since) and holds the centre's own subscriber count (op n) against it",
         "argument lists are values in the model (`l.bound ++ a`); that the Go code does not share the subscriber's backing array between invocations (D25) "
         "is tied by the run only: bound slices with spare capacity + nested publications + re-reading the arguments after the script",
         "harness: listeners are closures / 16 top-level functions interpreting scripts; real listener ids are mapped to template tags; "
